@@ -1,4 +1,5 @@
 import Chewing.Proofs.LearnBound
+import Chewing.Proofs.LearnLink
 /-!
 # C08 — Committed choices are learned, persist, and eventually become the default
 
@@ -233,6 +234,41 @@ theorem learned_persists (reopen : UserMap → UserMap) (hre : ∀ m k, (reopen 
     obtain ⟨v, hv, h1⟩ := h
     exact ⟨v, by rw [hre]; exact hv, h1⟩
   exact ⟨h', learned_is_candidate ctx (reopen u) key x h'⟩
+
+/-- one `learn_phrase` of this model is, on the map C09's specification `MapSpec` keeps, the
+    `DictionaryMut` call the editor makes: nothing, `add_phrase(key, (text, 1))` (accepted: the phrase
+    is not live) or `update_phrase(key, text, new_freq, now)` — so the `UserMap` after a sequence of
+    learnings is the `MapSpec` map of a history of C09 operations -/
+theorem learn_is_dictionary_call_linked {ctx : LearnCtx} {u u' : UserMap} {m : MapSpec.Map} {key : List Nat}
+    {text : Text} (hu : LearnLink.URep u m) (h : learnPhrase ctx u key text = .ok u') :
+    (u' = u) ∨ ∃ op : MapSpec.Op,
+      (op = .add key text firstFreq none ∨ ∃ nf, op = .update key text nf ctx.lifetime) ∧
+      LearnLink.URep u' (m.apply op) :=
+  LearnLink.learn_step_linked hu h
+
+/-- **`learned_persists` without its reopen hypothesis.**  The user dictionary is a file-backed
+    `TrieBuf` (C09's concrete layers) opened on a well-formed trie file `t0`; it goes through any
+    history of `add_phrase` / `update_phrase` / `remove_phrase` / `flush` / `reopen` under *every*
+    schedule of the snapshot writer (C10's protocol) and the editor is dropped (`phase = closed`).
+    `u` is this model's abstraction of the result (`URep`: the map `MapSpec` computes from the calls).
+    Then every live phrase of `u` is on disk: the file at the path is complete, a `TrieBuf` opened on
+    it lists the phrase under its syllables with exactly the learned (frequency, time), and `Layered`
+    over any system layers offers it with a positive frequency.
+    Discharged: "close + reopen preserves the map" = `C10.durable_lookup_linked` (durability for all
+    schedules + C09's snapshot lemma + C09's answers of a settled state) and `C09.layered_over_map`.
+    Remaining: a complete file is the leaves written (byte-level round trip: C11). -/
+theorem learned_persists_linked (t0 : List Leaf) (h0 : Trie.SnapOk t0) (tmp : Option DictLink.CFile)
+    (htmp : DictLink.TmpOk tmp) (acts : List DictLink.CAct) (hok : ∀ a ∈ acts, DictLink.CActOk a)
+    (cw : DictLink.CWorld) (hrun : DictLink.crun (DictLink.cinit t0 tmp) acts = some cw)
+    (hcl : cw.phase = .closed)
+    (u : UserMap) (hu : LearnLink.URep u (MapSpec.Map.run (TrieBuf.baseGet t0) (DictLink.opsOf acts)))
+    (key : List Nat) (x : Text) (hlive : Live u (key, x)) (sys : List Dict) :
+    ∃ t, cw.fs .path = some (.complete t) ∧
+      (∃ p ∈ TrieBuf.lookupAll (DictLink.freshSt t) key .standard,
+        p.text = x ∧ u.get? (key, x) = some (MapSpec.valOf p)) ∧
+      ∃ p ∈ Layered.lookupAll (sys ++ [TrieBuf.toDict (DictLink.freshSt t)]) key .standard,
+        p.text = x ∧ 1 ≤ p.freq :=
+  LearnLink.persists_linked t0 h0 tmp htmp acts hok cw hrun hcl u hu key x hlive sys
 
 /-! ## "repeating … a bounded number of times makes X the default" -/
 
